@@ -1010,7 +1010,7 @@ func TestVerifSyncer(t *testing.T) {
 				divMu.Unlock()
 			}
 			for _, v := range r.viol {
-				res.Violate(v.sig, map[string]interface{}{"behaviour": b, "seed": seed, "step": r.step, "log": r.log}, "%s\n(behaviour %s, chains %+v)", v.text, b.ID, b.Ch)
+				res.Violate(v.sig, map[string]interface{}{"kind": v.sig["kind"], "behaviour": b, "seed": seed, "step": r.step, "log": r.log}, "%s\n(behaviour %s, chains %+v)", v.text, b.ID, b.Ch)
 			}
 			if len(r.viol) == 0 && r.diverged != "" {
 				divMu.Lock()
